@@ -476,6 +476,23 @@ pub fn query_pairs(uri: &Uri) -> Vec<(String, String)> {
     pairs
 }
 
+/// Verification hook H3: taps on the private canonicalisation functions
+#[cfg(azure_guestproxyagent_verif)]
+pub mod verif_taps {
+    pub fn request_to_sign_input(
+        request_builder: &http::request::Builder,
+        body: Option<Vec<u8>>,
+    ) -> crate::common::result::Result<Vec<u8>> {
+        super::request_to_sign_input(request_builder, body)
+    }
+    pub fn headers_to_canonicalized_string(headers: &hyper::HeaderMap) -> String {
+        super::headers_to_canonicalized_string(headers)
+    }
+    pub fn get_path_and_canonicalized_parameters(url: &hyper::Uri) -> (String, String) {
+        super::get_path_and_canonicalized_parameters(url)
+    }
+}
+
 pub fn empty_body() -> BoxBody<Bytes, hyper::Error> {
     Empty::<Bytes>::new()
         .map_err(|never| match never {})
